@@ -227,7 +227,7 @@ def sample_lines(trace, k=2, kinds=None):
 # ---------------------------------------------------------------------------------------------
 # model checking and TLC-generated tests
 MC_DIR = os.path.join(SPEC, "mc")
-CACHE = os.path.join(WORK, "cache")
+CACHE = os.path.join(ROOT, "work", "cache")      # pure functions of the specification: shared by every work directory
 STAT_RE = re.compile(r"(\d+) states generated, (\d+) distinct states found")
 
 
